@@ -35,18 +35,28 @@ Theorem C17_followup_succeeds :
 Proof. exact followup_succeeds. Qed.
 Print Assumptions C17_followup_succeeds.
 
-(* The file engine's create-then-fill puts: the full statement is FALSE there;
-   these are the witnesses (known findings F-C17-2, F-C17-3). *)
-Theorem C17_file_engine_head_refuted :
-  exists old new f, read_head old <> None /\ read_head (Content new) <> None /\
-                    In f (put_states old new) /\ read_head f = None.
-Proof. exact file_put_head_refuted. Qed.
-Print Assumptions C17_file_engine_head_refuted.
+(* The file engine's create-then-fill puts.  A torn HEAD used to make the
+   journal unusable (F-C17-2, repaired): ReadHead now falls back to TAIL-1 and
+   probes, so in EVERY persistent state of an interrupted put of HEAD it returns
+   the true end of the log. *)
+Theorem C17_file_engine_head_recovers :
+  forall old new tail n ho hn,
+    (1 <= tail)%N -> (tail - 1 <= n)%N ->
+    read_head old = Some ho -> (tail - 1 <= ho <= n)%N ->
+    read_head (Content new) = Some hn -> (tail - 1 <= hn <= n)%N ->
+    forall f fuel, In f (put_states old new) -> (N.to_nat (n + 1) <= fuel)%nat ->
+    journal_read_head f tail (entries_between tail n) fuel = Some n.
+Proof. exact file_put_head_recovers. Qed.
+Print Assumptions C17_file_engine_head_recovers.
 
-Theorem C17_file_engine_snapshot_refuted :
-  exists (new : bytes) f, new <> [] /\ In f (put_states Absent new) /\ decode_snapshot f = Some [].
-Proof. exact file_put_snapshot_refuted. Qed.
-Print Assumptions C17_file_engine_snapshot_refuted.
+(* ... and a torn snapshot cache file used to be read as the empty snapshot
+   (F-C17-3, repaired): now a reader finds, in every persistent state of an
+   interrupted put, either no snapshot (it rebuilds it) or the right one. *)
+Theorem C17_file_engine_snapshot_safe :
+  forall (new : bytes) f, In f (put_snapshot_states Absent new) ->
+    get_snapshot f = None \/ get_snapshot f = Some new.
+Proof. exact file_put_snapshot_safe. Qed.
+Print Assumptions C17_file_engine_snapshot_safe.
 
 Theorem C17_atomic_put_head_readable :
   forall old new n m,
